@@ -1,7 +1,7 @@
 #!/bin/bash
 # tools/kill_new.sh : kill matrix for the seeded changes that have no RESULT line in seeded/kill_matrix.log yet
 LOG=/verif/seeded/kill_matrix.log
-/verif/tools/collect_seeds.sh > /dev/null 2>&1
+# (collect the sub-agents' results first: tools/collect_seeds.sh [ids])
 for d in /verif/seeded/C*/; do
   n=$(basename $d)
   grep -q "RESULT $n " "$LOG" && continue
